@@ -23,6 +23,13 @@ Qed.
 Lemma SInc_single : forall x, SInc [x].
 Proof. intros x. apply SInc_cons; [apply SInc_nil|]. intros y []. Qed.
 
+(* closes [SInc l] for a concrete list l (used by the non-vacuity examples) *)
+Ltac sinc :=
+  repeat (apply SInc_cons; [|simpl; intros ?y ?Hy;
+    repeat match goal with H : _ \/ _ |- _ => destruct H as [<-|H]; [reflexivity|] end;
+    match goal with H : False |- _ => destruct H end]);
+  apply SInc_nil.
+
 (* a strictly increasing list is determined by its set of elements *)
 Lemma SInc_unique : forall l1 l2, SInc l1 -> SInc l2 -> (forall x, In x l1 <-> In x l2) -> l1 = l2.
 Proof.
